@@ -109,14 +109,19 @@ pub fn run_cases(input: &str) -> Vec<String> {
         match &files {
             Some((Some(fp), Some(fc), same)) => {
                 // first letter: writer, second letter: reader
-                out.push(format!(
+                let mut ans = format!(
                     "pp={};pc={};cp={};cc={};samebytes={}",
                     pinned::answer(fp, &toks),
                     current::answer(fp, &toks),
                     pinned::answer(fc, &toks),
                     current::answer(fc, &toks),
                     *same as u8
-                ));
+                );
+                if toks[0] == "W" {
+                    // the written bytes themselves, for the comparison with the models of both writers
+                    ans.push_str(&format!(";wp={};wc={}", hex(fp.bytes()), hex(fc.bytes())));
+                }
+                out.push(ans);
             }
             _ => out.push("WRITE-FAILED".to_string()),
         }
